@@ -16,7 +16,7 @@ def run(db, rep, tier):
                      % (data['paths'], len(data['ops'])))
     for k in sorted(data['ops'])[:400]:
         rep.fn(k)
-    ownrules.report(rep, data, ('B.inv', 'B.inv.empty', 'B.post'), False, 'B.inv')
+    ownrules.report(rep, data, ('B.inv', 'B.inv.empty', 'B.post', 'B.acc'), False, 'B.inv')  # B.acc: a block owned, cached or released more than once means two vectors can end up on the same storage
     # "storage supplied by the user is never freed, resized or silently replaced": an operation that would have to
     # resize a vector bound to user storage must fail; completing normally means the binding was dropped or replaced
     seen = set()
